@@ -1355,12 +1355,8 @@ func (s *sess) randomSession(steps int, tiePool bool) {
 			switch rng.Intn(12) {
 			case 0:
 				to = nmAddr
-			case 1:
-				if rng.Chance(1, 3) {
-					to = sysAddr
-				} else {
-					to = a.addr
-				}
+			case 1: // to itself (never to aergo.system here: that is the deliberate probe scripted:transfer-to-system)
+				to = a.addr
 			default:
 				to = s.accts[rng.Intn(len(s.accts))].addr
 			}
